@@ -27,8 +27,8 @@ RULE = (
 ASSUMPTIONS = ["each single call from a fresh dataset is judged by C01/C04/C12/C13/C14"]
 
 ALPHABET = ["full", "mesh-only", "part-only", "sink-only", "varsubset", "value", "box", "levelcap", "cpulist",
-            "sortby", "part-off", "sortby-sink", "sortby-mesh"]
-NARROWING = {"box", "levelcap", "cpulist", "value", "varsubset", "mesh-only", "part-only", "sink-only", "part-off"}
+            "sortby", "part-off", "sortby-sink", "sortby-mesh", "levelcap-deeper", "levelband", "mesh-only-sortby-part"]
+NARROWING = {"levelcap-deeper", "levelband", "box", "levelcap", "cpulist", "value", "varsubset", "mesh-only", "part-only", "sink-only", "part-off"}
 
 
 def plan(tier):
@@ -98,6 +98,19 @@ def make_args(osy, name, model, rng):
         k = sp["levelmin"]
         p = {"var": "level", "op": "<=", "value": k}
         return {"select": {"mesh": sel.to_select(osy, [p])}}, f"select level <= {k}"
+    if name == "levelcap-deeper":
+        # a deeper cap than "levelcap": after a shallower cap, the levels in between must come back
+        k = min(sp["levelmin"] + 2, sp["levelmax"])
+        p = {"var": "level", "op": "<=", "value": k}
+        return {"select": {"mesh": sel.to_select(osy, [p])}}, f"select level <= {k}"
+    if name == "levelband":
+        k = min(sp["levelmin"] + 1, sp["levelmax"])
+        p = {"var": "level", "op": "<", "value": k + 1}
+        return {"select": {"mesh": sel.to_select(osy, [p])}}, f"select level < {k + 1}"
+    if name == "mesh-only-sortby-part":
+        # a sort key for a group that this call does not load
+        key = "identity" if any(n == "identity" for n, t in sp["part"]["descriptor"]) else sp["part"]["descriptor"][0][0]
+        return {"select": ["mesh"], "sortby": {"part": key}}, f"select=['mesh'], sortby part {key}"
     if name == "cpulist":
         return {"cpu_list": [2]}, "cpu_list=[2]"
     if name == "sortby":
